@@ -14,7 +14,7 @@ FieldSpace(nm) ==
         /\ (f.ty = "bterr" => f.attr \in {"not_backtrace", "nb_source", "source_nb", "none", "ignore"})}
 
 Init == /\ l = <<>> /\ named \in BOOLEAN /\ isVariant \in BOOLEAN
-        /\ comp \in {"unit", "ignored", "sourced"} /\ (~isVariant => comp = "unit")
+        /\ comp \in {"unit", "ignored", "sourced", "ignored_src"} /\ (~isVariant => comp = "unit")
 Add  == /\ Len(l) < MaxFields
         /\ \E f \in FieldSpace(named) :
              /\ (named /\ f.name # "other" => \A i \in 1..Len(l) : l[i].name # f.name)   \* distinct names
